@@ -11,7 +11,10 @@
  *   avail <r>            r_buf_rpos_check_fast, r_buf_data_avail_size, and a full r_buf_data_get on a COPY of the cursor
  *   dget <r> <dsz> <cnt> r_buf_data_get into an exact-size heap array of cnt iovecs (ASan sees an overrun)
  *   inc <r> <n>          r_buf_rpos_inc (SIGTRAP from debug_break() is caught and reported as trap:1)
- *   rand <seed> <nops> <maxblk> ...   self-driven random history (see do_rand) printing one event per call
+ *   rand <seed> <nops> <maxblk> <writer%>   self-driven random history (see do_rand) printing one event per call
+ *   poke wpos idx imax rnd frag full gotb gotn wcount  n (b l)*n  size m*size  nr (idx off rnd)*nr
+ *                        put the real structures into a state that an earlier, already compared call produced
+ *                        (thorough tier: every edge of the TLC state graph = one poke + one call)
  *
  * Every data byte the writer commits is stamped with (global byte number % 251); scribbled gaps / never written
  * cells are 0xFF.  Regions returned to readers are reported as offsets from r_buf->buf and the bytes are READ from
@@ -168,6 +171,28 @@ static void do_inc(size_t r, size_t n) {
 	pr_state();
 }
 
+static void do_poke(char *line) {
+	long long v[512]; size_t n = 0, k = 0, i, cnt;
+	char *p = line + 4, *e;
+	for (;;) { long long x = strtoll(p, &e, 10); if (e == p || n >= 512) break; v[n++] = x; p = e; }
+	rb->wpos = (size_t)v[k++]; rb->iov_index = (size_t)v[k++]; rb->iov_index_max = (size_t)v[k++];
+	rb->round_num = round0 + (size_t)v[k++];
+	rb->flags = (v[k] ? RBUF_F_FRAG : 0) | (v[k + 1] ? RBUF_F_FULL : 0); k += 2;
+	gotbuf = v[k] < 0 ? NULL : rb->buf + v[k]; k++; gotn = v[k] < 0 ? 0 : (size_t)v[k]; k++;
+	gcount = (uint64_t)v[k++];
+	cnt = (size_t)v[k++];
+	for (i = 0; i < cnt; i++) { rb->iov[i].iov_base = v[k] == NULLB ? NULL : rb->buf + v[k]; rb->iov[i].iov_len = (size_t)v[k + 1]; k += 2; }
+	cnt = (size_t)v[k++];
+	for (i = 0; i < cnt; i++) rb->buf[i] = (uint8_t)v[k++];
+	cnt = (size_t)v[k++];
+	for (i = 0; i < cnt; i++) {
+		inited[i] = v[k] >= 0; rpos[i].iov_index = (size_t)v[k]; rpos[i].iov_off = (size_t)v[k + 1];
+		rpos[i].round_num = round0 + (size_t)v[k + 2]; k += 3; lastret[i] = 0;
+	}
+	printf("{\"op\":\"poke\",\"n\":%zu,\"used\":%zu", n, k);
+	pr_state();
+}
+
 /* self-driven random history: the driver plays writer and readers, choosing every argument from what the ring
  * itself returned (space from wbuf_get, bytes from data_get), i.e. only API-conforming calls. */
 static uint64_t rs;
@@ -219,7 +244,7 @@ static void do_rand(uint64_t seed, size_t nops, size_t maxblk, unsigned lag) {
 }
 
 int main(void) {
-	char line[512], op[32];
+	static char line[8192]; char op[32];
 	long long a[6];
 	vh_install_fault_handler();
 	signal(SIGTRAP, on_trap);
@@ -237,6 +262,7 @@ int main(void) {
 		else if (!strcmp(op, "avail")) do_avail((size_t)a[0]);
 		else if (!strcmp(op, "dget")) do_dget((size_t)a[0], (size_t)a[1], (size_t)a[2]);
 		else if (!strcmp(op, "inc")) do_inc((size_t)a[0], (size_t)a[1]);
+		else if (!strcmp(op, "poke")) do_poke(line);
 		else if (!strcmp(op, "rand")) { do_rand((uint64_t)a[0], (size_t)a[1], (size_t)a[2], (unsigned)a[3]); printf("{\"op\":\"randdone\"}\n"); }
 		else printf("{\"error\":\"bad command\"}\n");
 		fflush(stdout);
